@@ -123,6 +123,9 @@ def val_eq(ex, a, b):
         if len(a.items) != len(b.items):
             return False
         return and_all(ex, [val_eq(ex, x, y) for x, y in zip(a.items, b.items)])
+    if (ta is Opaque and (tb is int or is_sym(b))) or (tb is Opaque and (ta is int or is_sym(a))):
+        # a parsed value (identified by its source text) vs a literal: never the same representation
+        return False
     if ta is Opaque and tb is Opaque:
         if a.tag != b.tag:
             return False
@@ -217,6 +220,8 @@ def m_into(ex, c, args):
     # a user-defined `From` impl on the target type is executed from MIR
     if c.method == "into" and c.trait_args:
         tgt = type_head(c.trait_args)
+        if type(v) is Adt and v.ty == tgt:
+            return v  # impl<T> From<T> for T
         f = ex.prog.by_trait.get(("From", tgt, "from"))
         if f is not None:
             f = ex.pick_overload(f, ("From", tgt, "from"), [v])
